@@ -141,6 +141,8 @@ def run_table(ctx, pair, nshare, renamed, keeper=False):
         if main_present:
             env.write('policy.yaml', main)
         if d:
+            # the directory entry: a regular file or a link to one
+            env.linked = bool(ctx.bool('dir_entry_is_symlink'))
             env.write('policy.d/10-over.yaml', d)
         enf = env.enforcer(defaults=defaults,
                            enforce_new_defaults=end)
